@@ -15,6 +15,24 @@ from pysym.lib import native, NativeBound
 from pysym.arr import Arr, INT_RANGES
 
 
+class MonoIndex:
+    """pandas Index of the core dimension: monotonicity predicates over the (symbolic) labels."""
+
+    def __init__(self, da):
+        self.da = da
+
+    def pysym_getattr(self, it, st, attr):
+        t = [V.to_z3(x) if is_sym(x) else x for x in self.da.time]
+        pairs = list(zip(t, t[1:]))
+        if attr == "is_monotonic_increasing":
+            return z_and(*[it.A.cmp("<=", a, b) for a, b in pairs]) if pairs else True
+        if attr == "is_monotonic_decreasing":
+            return z_and(*[it.A.cmp(">=", a, b) for a, b in pairs]) if pairs else True
+        if attr == "is_unique":
+            return z_and(*[it.A.cmp("!=", a, b) for i, a in enumerate(t) for b in t[i + 1:]]) if pairs else True
+        raise Unsupported(f"Index.{attr}")
+
+
 class StubDA:
     def __init__(self, vals, dims=("time",), time=None, nan=None, dtype="float64", attrs=None, name=None, core="time"):
         self.vals = list(vals)
@@ -61,6 +79,8 @@ class StubDA:
             return len(self.vals)
         if attr == self.core:
             return StubCoord(self)
+        if attr == "indexes":
+            return {self.core: MonoIndex(self)}
         m = getattr(self, "m_" + attr, None)
         if m is None:
             raise Unsupported(f"StubDA has no contract for attribute {attr!r}")
@@ -113,6 +133,22 @@ class StubDA:
             raise Unsupported("tuple index on StubDA")
         if self.dims and self.dims[0] == self.core:
             return self._slice(it, st, idx)
+        if self.dims and self.dims[0] != self.core:
+            # positional index on the leading dimension, which is a size-1 (per-pixel) dimension here: a slice keeps the pixel
+            # (in whatever direction it runs), index 0 / -1 selects it
+            if isinstance(idx, SliceV):
+                lo, hi, stp = it.use(st, idx.lo), it.use(st, idx.hi), it.use(st, idx.step)
+                if any(is_sym(x) for x in (lo, hi, stp)):
+                    raise Unsupported("symbolic slice on StubDA")
+                if len(range(*slice(lo, hi, stp).indices(1))) != 1:
+                    raise Unsupported("slice that drops the only pixel of a size-1 dimension")
+                d = self.like()
+                d.log = self.log + [("slice-leading", lo, hi, stp)]
+                return d
+            if isinstance(idx, int) and idx in (0, -1):
+                d = self.like()
+                d.dims = self.dims[1:]
+                return d
         raise Unsupported("index on StubDA")
 
     def _slice(self, it, st, sl):
